@@ -430,6 +430,28 @@ def rejected_templates(keys):
                 beh += [dict(a="Begin", s=0, chain=[o2, o2], res="NotAncestor")]
             beh += [dict(a=second, o=o2, res="Ok"), dict(a="Rollback", n=1, res="Ok"), dict(a="Close"), dict(a="Reopen")]
             out.append(beh)
+    # a non-blocking commit DEFERRED by a live session (the changeset / overlay is handed back untouched): the other
+    # session goes away, the handed-back handle is committed after all, and the commit is rolled back - the deferred
+    # attempt must not have cost the handle anything (its values, its root, its rollback delta)
+    for kind in ("session", "overlay"):
+        for later in ("blocking", "nonblocking"):
+            for nattempts in (1, 2):
+                beh = [dict(a="Begin", s=1, chain=[], res="Ok"), dict(a="Finish", s=1, f=1, w=dict(N, **{c: "v1", a: "v2"})), dict(a="Commit", f=1, res="Ok")]
+                beh += [dict(a="Begin", s=1, chain=[], res="Ok"), dict(a="Finish", s=1, f=1, w=dict(N, **{a: "v1", c: "Nil"}))]
+                if kind == "overlay":
+                    beh += [dict(a="IntoOverlay", f=1, o=1)]
+                beh += [dict(a="Begin", s=1, chain=[], res="Ok")]                      # the session that is in the way (id 1 is free again)
+                for _ in range(nattempts):
+                    beh += [dict(a="TryCommit", f=1, res="HandedBack") if kind == "session" else dict(a="OverlayTryCommit", o=1, res="HandedBack")]
+                beh += [dict(a="DropSession", s=1)]
+                if kind == "session":
+                    beh += [dict(a="Commit" if later == "blocking" else "TryCommit", f=1, res="Ok")]
+                else:
+                    beh += [dict(a="OverlayCommit" if later == "blocking" else "OverlayTryCommit", o=1, res="Ok")]
+                beh += [dict(a="Rollback", n=1, res="Ok"),
+                        dict(a="Begin", s=1, chain=[], res="Ok"), dict(a="Finish", s=1, f=1, w=dict(N, **{b: "v1"})), dict(a="Commit", f=1, res="Ok"),
+                        dict(a="Rollback", n=1, res="Ok"), dict(a="Close"), dict(a="Reopen")]
+                out.append(beh)
     return out
 
 
